@@ -21,6 +21,36 @@ class ModbusSim(PeerBase):
         self.silent = False
         self.bad = []                                   # unparsable requests
         self.delay = 0.0                                # answer latency (virtual seconds)
+        self.fault = None                               # None | 'silent' | 'garbage' | ('recverr', errno) | 'eof' | ('exc', code)
+
+    def faulty(self, s, kind, frame, n):
+        """Fault mode of the whole device (C09/C10 API sweeps); returns True when the request was consumed."""
+        f = self.fault
+        if f is None:
+            return False
+        self.loop.ev("sim_fault", self.owner, n, f if isinstance(f, str) else list(f))
+        if f == "silent":
+            return True
+        if f == "garbage":
+            self.send(s, bytes((11 * i + n) & 0xFF for i in range(17)), 0, n)
+            return True
+        if f == "eof":
+            if kind == "tcp":
+                self.close_conn(s, 0, n)
+            else:
+                self.send_error(s, 111, 0, n)
+            return True
+        if f[0] == "recverr":
+            self.send_error(s, f[1], 0, n)
+            return True
+        if f[0] == "exc":
+            try:
+                req = rc.parse_tcp_request(frame) if kind == "tcp" else rc.parse_rtu_request(frame)
+            except rc.BadFrame:
+                return True
+            self.send(s, (rc.tcp_exception if kind == "tcp" else rc.rtu_exception)(req, f[1]), 0, n)
+            return True
+        return False
 
     # -- register file ---------------------------------------------------------------------------------
     def get(self, a):
@@ -44,6 +74,9 @@ class ModbusSim(PeerBase):
 
     # -- protocol --------------------------------------------------------------------------------------
     def on_request(self, s, kind, frame, n):
+        if self.fault is not None and not (frame[0:2] == b"\xaa\x55" and isinstance(self.fault, tuple) and self.fault[0] == "exc"):
+            if self.faulty(s, kind, frame, n):
+                return
         try:
             req = rc.parse_tcp_request(frame) if kind == "tcp" else rc.parse_rtu_request(frame)
         except rc.BadFrame as e:
@@ -151,6 +184,9 @@ class Aa55Sim(ModbusSim):
     def on_request(self, s, kind, frame, n):
         if frame[0:2] != b"\xaa\x55":
             return super().on_request(s, kind, frame, n)
+        if self.fault is not None and not (isinstance(self.fault, tuple) and self.fault[0] == "exc"):
+            if self.faulty(s, kind, frame, n):
+                return
         try:
             req = rc.parse_aa55_request(frame)
         except rc.BadFrame as e:
